@@ -78,6 +78,9 @@ def cases(tier, seed):
     # cost vectors of the scenario problems -- for every asset class, also on grids whose step differs from the main time unit
     for cid, shape, kw in COST_SAMPLES if tier == 'thorough' else COST_SAMPLES[:COST_QUICK]:
         out.append(('cost_samples_' + cid, dict(kind='costs', shape=shape, kw=kw)))
+    # sequences of calls on the same objects (decided with C10's history machinery: the final problem equals that of fresh objects)
+    # -- cost samples are those of the prices in the sample dictionary at the time of the call
+    out.append(('history_cost_samples_from_a_refilled_sample_dictionary', common.delegated('c10', pf='dicts', final='h_costsample', histories=[['costs']])))
     return out
 
 
